@@ -1485,12 +1485,33 @@ func vwKeyMut(t *testing.T) {
 	check("Delete", spare)
 }
 
+var vwPool []string
+
+// vwWord: keys come in families - a fresh word, or an earlier word with one byte changed - so that
+// stored and absent keys differ in a single position anywhere, including inside long shared prefixes.
 func vwWord(r *rand.Rand) string {
+	if len(vwPool) > 0 && r.Intn(3) == 0 {
+		b := []byte(vwPool[r.Intn(len(vwPool))])
+		b[r.Intn(len(b))] = []byte{'a', 'b', 'p', 'q', 0x80, 0xff}[r.Intn(6)]
+		return string(b)
+	}
+	w := vwFresh(r)
+	if len(vwPool) < 64 {
+		vwPool = append(vwPool, w)
+	} else {
+		vwPool[r.Intn(64)] = w
+	}
+	return w
+}
+
+func vwFresh(r *rand.Rand) string {
 	// small alphabet, bytes >= 0x80, shared prefixes longer than the inline limit, no 0x00 (known finding F8)
 	alpha := []byte{'a', 'b', 'c', 0x7f, 0x80, 0xff}
 	var b []byte
-	if r.Intn(3) == 0 {
-		b = append(b, "pppppppppppp"[:r.Intn(13)]...)
+	// shared prefixes: none, short, and two lengths beyond the 10 bytes a node keeps inline
+	b = append(b, []string{"", "", "ppp", "pppppppppppp", "pppppppppppppp"}[r.Intn(5)]...)
+	if len(b) > 0 && r.Intn(5) == 0 {
+		b[r.Intn(len(b))] = 'q' // diverge somewhere inside the shared prefix
 	}
 	for n := 1 + r.Intn(5); n > 0; n-- {
 		b = append(b, alpha[r.Intn(len(alpha))])
